@@ -253,6 +253,18 @@ def probes(rep, r, n):
                     rep.violation('batch-ne-single:area/sum', f'{c["kind"]}: position {i} of a multi-position aperture gives area {an[i]}, sum {sn[i]}; '
                                   f'alone it gives area {a1}, sum {s1_}', dict(sig_case(c), positions=posn))
                     break
+            # an aperture of the case's class lying entirely inside a larger frame, no mask: the overlap area is still the sum of the
+            # weights actually used (for rectangles the 'exact' weights are a sub-sampling, so it is NOT the analytic area)
+            big = np.ones((40, 44))
+            apin = type(ap)((20.3 + (c['p']['cx'] % 1), 17.6 + (c['p']['cy'] % 1)), **shape_kw)
+            if apin.bbox.ixmin >= 0 and apin.bbox.iymin >= 0 and apin.bbox.ixmax <= 44 and apin.bbox.iymax <= 40:
+                a_in = float(np.asarray(apin.area_overlap(big, method=c['method'], subpixels=c['sub'])))
+                w_in = float(apin.to_mask(method=c['method'], subpixels=c['sub']).data.sum())
+                s_in = float(np.asarray(apin.do_photometry(big, method=c['method'], subpixels=c['sub'])[0][0]))
+                rep.count('fully-inside-area-probe')
+                if not (same(a_in, w_in, rel=1e-12) and same(s_in, w_in, rel=1e-12)):
+                    rep.violation(f'area-mismatch:fully-inside:{c["kind"]}', f'{c["kind"]} entirely inside the image, method {c["method"]}: area_overlap = {a_in}, '
+                                  f'photometry of an image of ones = {s_in}, sum of the mask weights = {w_in}', dict(sig_case(c), inside=True))
             ann = CircularAnnulus(pos, 1.0, 2.5)
             tl = aperture_photometry(c['data'], [ap3, ann], error=err, mask=c['mask'], method=c['method'],
                                      subpixels=c['sub'])
